@@ -4,6 +4,7 @@ import SdJwt.Lemmas.Complete
 import SdJwt.Lemmas.MarkInv
 import SdJwt.Lemmas.EndToEnd
 import SdJwt.Lemmas.Example
+import SdJwt.Lemmas.IssuedPaths
 /-!
 # C01 — issuance round trip returns exactly the original claims and their paths
 
@@ -237,3 +238,39 @@ theorem C01_paths (env : Env) (T : MJ) (strs : List String) (inv : TreeInv T)
       (∀ d ∈ L, ∃ s ∈ strs, fromBase64 env s = .ok d) ∧
       (∀ s ∈ strs, ∃ d ∈ L, fromBase64 env s = .ok d) ∧ PathsOK T L ps :=
   restoreAll_paths env T strs inv hdec hnd hacc
+
+/-- **The holder reports the paths the issuer was given.** With the hypotheses of
+`C01_end_to_end`, when the issuer is given JSON pointers in `format_path`'s canonical form (the
+rendering of their tokens; a token that addresses an array element is the decimal of its index):
+the path strings `Holder::verify` returns are, up to order, exactly the strings the issuer was
+given — one per marked claim. -/
+theorem C01_reported_paths (rt : Rt) (mk : Nat → Option String → J → String)
+    (addr : List (List String × String)) (ms : MMems) (Tn : MJ)
+    (ds : List SDisc) (decoys : Option (List String)) (cnf : Option MJ) (jwt : String) (header : J)
+    (strs : List String)
+    (wf : (MJ.obj ms none).WF) (hplain : (MJ.obj ms none).digests = [])
+    (hk1 : "_sd_alg" ∉ ms.keys) (hk2 : "cnf" ∉ ms.keys)
+    (hcanon : ∀ a ∈ addr, CanonToks (a.1 ++ [a.2]))
+    (h : markAll mk 0 addr (.obj ms none) = some (Tn, ds)) (hne : ds ≠ [])
+    (hdec : ∀ l, decoys = some l → l.Nodup ∧ (∀ g ∈ l, g ∉ Tn.digests))
+    (hX : ∀ X, cnf = some X → X.WF ∧ X.digests = [])
+    (hsig : ∀ payload dsrc,
+      encode (MJ.obj ms none).payload (addr.map (fun a => renderPath a.1 a.2)) mk decoys
+        (cnf.map (·.payload)) = .ok (payload, dsrc) →
+      rt.jwtDecode jwt = .ok (header, payload))
+    (hstr : ∀ s ∈ strs, ∃ e ∈ ds,
+      fromBase64 (rt.env "sha-256") s = .ok ⟨s, e.digest, e.key, e.value⟩)
+    (hnd : (strs.map (rt.hash "sha-256")).Nodup)
+    (hall : ∀ e ∈ ds, ∃ s ∈ strs, rt.hash "sha-256" s = e.digest)
+    (hj : '~' ∉ jwt.toList) (hs : ∀ s ∈ strs, '~' ∉ s.toList) :
+    ∃ ps, Holder.verify rt (assemble jwt strs) = .ok (header, expectedClaims ms cnf, ps) ∧
+      (ps.map (·.1)).Perm (addr.map (fun a => renderPath a.1 a.2)) := by
+  obtain ⟨ps, hv, hperm, _⟩ := C01_end_to_end rt mk (addr.map (fun a => renderPath a.1 a.2)) addr ms Tn ds
+    decoys cnf jwt header strs wf hplain hk1 hk2 (parsedAll_render addr) h hne hdec hX hsig hstr hnd hall hj hs
+  refine ⟨ps, hv, ?_⟩
+  have hm0 := (Impl.no_digests _ wf hplain).1
+  have h1 := issued_pointers mk addr (.obj ms none) Tn ds hm0 hcanon h
+  have h2 : (ps.map (·.1)).Perm ((Tn.paths "").map (·.1)) := by
+    have := hperm.map (·.1)
+    simpa [List.map_map, Function.comp_def] using this
+  exact h2.trans h1
